@@ -6,6 +6,7 @@
 #include <cstring>
 #include <fstream>
 #include <iostream>
+#include <locale>
 #include <stack>
 #include <vector>
 
@@ -158,6 +159,9 @@ void TraceRecorder::saveLog(const char *logFile, const char *processName)
   // keep dependencies down we don't need a JSON library to produce this simple
   // format
   std::ofstream fout(logFile);
+  // JSON numbers must not pick up digit grouping or a decimal comma from the
+  // application's global locale
+  fout.imbue(std::locale::classic());
 
 #ifdef _WIN32
   const int pid = _getpid();
